@@ -422,6 +422,36 @@ class SymList(list):
 
 
 # ---------------------------------------------------------------------------------
+_ABSENT = object()
+_builtin_int = int
+
+
+def sym_int(x=0, *a):
+    from .scalar import SymInt
+    if isinstance(x, SymInt):
+        return x
+    return _builtin_int(x, *a)
+
+
+_builtin_str = str
+
+
+class _SymStrMeta(type):
+    def __instancecheck__(cls, obj):
+        return isinstance(obj, _builtin_str)
+
+
+class sym_str(metaclass=_SymStrMeta):
+    """stands in for the builtin `str` in the library modules: str(symbolic id) is the spelling of its identifier class"""
+
+    def __new__(cls, x="", *a):
+        from .scalar import SymInt
+        if isinstance(x, SymInt) and x.domain is not None:
+            c = x.classify()
+            return _builtin_str(c) if c is not None else "other-id!" + x.name
+        return _builtin_str(x, *a)
+
+
 _MODULES = None
 _SAVED = {}
 PROXY = NPProxy()
@@ -450,6 +480,12 @@ def activate(engine):
         if hasattr(m, "norm"):
             saved["norm"] = m.norm
             m.norm = _NormStub
+        if m.__name__ in ("cr.cube.dimension", "cr.cube.collator"):
+            # the builtin int() cannot be overloaded for symbolic ids: rebind the module global
+            saved["int"] = m.__dict__.get("int", _ABSENT)
+            m.int = sym_int
+            saved["str"] = m.__dict__.get("str", _ABSENT)
+            m.str = sym_str
         if hasattr(m, "t") and m.__name__ in ("cr.cube.matrix.measure", "cr.cube.measures.pairwise_significance"):
             saved["t"] = m.t
             m.t = _TStub
@@ -462,7 +498,11 @@ def deactivate():
         return
     for m in cube_modules():
         for k, v in _SAVED.get(m.__name__, {}).items():
-            setattr(m, k, v)
+            if v is _ABSENT:
+                if k in m.__dict__:
+                    delattr(m, k)
+            else:
+                setattr(m, k, v)
     _SAVED.clear()
     ACTIVE["on"] = False
     ENGINE["cur"] = None
